@@ -89,7 +89,7 @@ structure Plain (T : Tables) (st : TState) : Prop where
 /-- what the transforms leave in the attribute dict of a text-like `<input>` -/
 theorem input_textlike_attrs (T : Tables) (b : Bind) (st st6 : TState) (hp : Plain T st)
     (hnoval : Dict.get? st.attrs sValue = none)
-    (hty : textLike ((Dict.get? st.attrs sType).getD (.text [])) = true)
+    (hty : textLike ((Dict.get? st.attrs sType).getD (.text [])).lowerKw = true)
     (hname : b.flatName ≠ [])
     (hT1 : T.autoTag sName sInput = true) (hT2 : T.autoTag sValue sInput = true)
     (h : transform T sInput (some b) st = .ok st6) :
@@ -173,7 +173,7 @@ def browserTextLike (attrs : Attrs) : Prop :=
 theorem posts_flat_pair_input (T : Tables) (b : Bind) (st st6 : TState) (text : Str) (hp : Plain T st)
     (hnd : (Dict.keys st.attrs).Nodup)
     (hnoval : Dict.get? st.attrs sValue = none)
-    (hty : textLike ((Dict.get? st.attrs sType).getD (.text [])) = true)
+    (hty : textLike ((Dict.get? st.attrs sType).getD (.text [])).lowerKw = true)
     (hbr : browserTextLike st.attrs)
     (hname : b.flatName ≠ [])
     (hT1 : T.autoTag sName sInput = true) (hT2 : T.autoTag sValue sInput = true)
@@ -263,15 +263,18 @@ open Flatland.Markup Flatland.C12 Flatland.C19.Proofs
 
 theorem str?_text (s : Str) : (Val.text s).str? = some s := rfl
 
-theorem checkable_str (ty : Val) (h : (ty.eqStr "radio".toList || ty.eqStr "checkbox".toList) = true) :
-    ∃ s, ty.str? = some s ∧ (s = "radio".toList ∨ s = "checkbox".toList) := by
-  unfold Val.eqStr at h
-  cases hs : ty.str? with
-  | none => rw [hs] at h; simp at h
-  | some s =>
-    rw [hs] at h
-    simp only [Bool.or_eq_true, beq_iff_eq] at h
-    exact ⟨s, rfl, h⟩
+theorem checkable_str (ty : Val) (h : (ty.lowerKw.eqStr "radio".toList || ty.lowerKw.eqStr "checkbox".toList) = true)
+    (hnk : ∀ s, ty.str? = some s → asciiLower s = kwLower s) :
+    ∃ s, ty.str? = some s ∧ (asciiLower s = "radio".toList ∨ asciiLower s = "checkbox".toList) := by
+  cases ty with
+  | text s =>
+    simp only [Val.lowerKw, Val.eqStr, Val.str?, Bool.or_eq_true, beq_iff_eq] at h
+    exact ⟨s, rfl, by rw [hnk s rfl]; exact h⟩
+  | markup s =>
+    simp only [Val.lowerKw, Val.eqStr, Val.str?, Bool.or_eq_true, beq_iff_eq] at h
+    exact ⟨s, rfl, by rw [hnk s rfl]; exact h⟩
+  | bool bb => simp [Val.lowerKw, Val.eqStr, Val.str?] at h
+  | maybe => simp [Val.lowerKw, Val.eqStr, Val.str?] at h
 
 /-- CHECKED IFF MATCHES — a checkbox / radio with literal `lit`, bound to a scalar or Boolean
     element: after the transforms it carries `name` = flattened name, its `value` is still the
@@ -280,7 +283,8 @@ theorem checkable_str (ty : Val) (h : (ty.eqStr "radio".toList || ty.eqStr "chec
 theorem checked_iff (T : Tables) (b : Bind) (st st6 : TState) (ty : Val) (lit text : Str) (hp : Plain T st)
     (hnd : (Dict.keys st.attrs).Nodup)
     (hty : Dict.get? st.attrs sType = some ty)
-    (hck : (ty.eqStr "radio".toList || ty.eqStr "checkbox".toList) = true)
+    (hck : (ty.lowerKw.eqStr "radio".toList || ty.lowerKw.eqStr "checkbox".toList) = true)
+    (hnk : ∀ s, ty.str? = some s → asciiLower s = kwLower s)
     (hlit : Dict.get? st.attrs sValue = some (.text lit))
     (hkind : ∀ s ms, b.kind ≠ .array s ms)
     (hname : b.flatName ≠ [])
@@ -339,13 +343,12 @@ theorem checked_iff (T : Tables) (b : Bind) (st st6 : TState) (ty : Val) (lit te
   refine ⟨e1, e2, e3, ?_⟩
   have hn6 := transform_nodup hnd h
   have hne : b.flatName.isEmpty = false := by simpa using hname
-  obtain ⟨s, hs, hs2⟩ := checkable_str ty hck
-  have hlow : asciiLower s = s := by rcases hs2 with rfl | rfl <;> decide
-  have hdec : (decide (s = "checkbox".toList) || decide (s = "radio".toList)) = true := by
-    rcases hs2 with rfl | rfl <;> decide
+  obtain ⟨s, hs, hs2⟩ := checkable_str ty hck hnk
+  have hdec : (decide (asciiLower s = "checkbox".toList) || decide (asciiLower s = "radio".toList)) = true := by
+    rcases hs2 with h | h <;> simp [h]
   unfold Spec.PostsIffMatches submittedD submitted
   simp only [attr?_strAttrs _ hn6, e1, e2, e3, e4, Option.bind_some, str?_text, hne, Bool.false_eq_true, if_false,
-    hs, Option.getD_some, hlow, hdec, if_true]
+    hs, Option.getD_some, hdec, if_true]
   by_cases hlu : lit = b.u
   · subst hlu
     simp only [if_true, Option.bind_some, str?_text, Option.isSome_some, beq_self_eq_true]
@@ -358,7 +361,8 @@ theorem checked_iff (T : Tables) (b : Bind) (st st6 : TState) (ty : Val) (lit te
 theorem checked_iff_array (T : Tables) (b : Bind) (st st6 : TState) (ty : Val) (lit text : Str) (hp : Plain T st)
     (hnd : (Dict.keys st.attrs).Nodup)
     (hty : Dict.get? st.attrs sType = some ty)
-    (hck : (ty.eqStr "radio".toList || ty.eqStr "checkbox".toList) = true)
+    (hck : (ty.lowerKw.eqStr "radio".toList || ty.lowerKw.eqStr "checkbox".toList) = true)
+    (hnk : ∀ s, ty.str? = some s → asciiLower s = kwLower s)
     (hlit : Dict.get? st.attrs sValue = some (.text lit))
     (strip : Bool) (ms : List (Option Str)) (hkind : b.kind = .array strip ms)
     (hname : b.flatName ≠ [])
@@ -421,13 +425,12 @@ theorem checked_iff_array (T : Tables) (b : Bind) (st st6 : TState) (ty : Val) (
   refine ⟨e1, e2, e3, ?_⟩
   have hn6 := transform_nodup hnd h
   have hne : b.flatName.isEmpty = false := by simpa using hname
-  obtain ⟨s, hs, hs2⟩ := checkable_str ty hck
-  have hlow : asciiLower s = s := by rcases hs2 with rfl | rfl <;> decide
-  have hdec : (decide (s = "checkbox".toList) || decide (s = "radio".toList)) = true := by
-    rcases hs2 with rfl | rfl <;> decide
+  obtain ⟨s, hs, hs2⟩ := checkable_str ty hck hnk
+  have hdec : (decide (asciiLower s = "checkbox".toList) || decide (asciiLower s = "radio".toList)) = true := by
+    rcases hs2 with h | h <;> simp [h]
   unfold Spec.PostsIffMatches submittedD submitted
   simp only [attr?_strAttrs _ hn6, e1, e2, e3, e4, Option.bind_some, str?_text, hne, Bool.false_eq_true, if_false,
-    hs, Option.getD_some, hlow, hdec, if_true]
+    hs, Option.getD_some, hdec, if_true]
   cases M with
   | true => simp only [if_true, Option.bind_some, str?_text, Option.isSome_some]
   | false => simp only [Bool.false_eq_true, if_false, Option.bind_none, Option.isSome_none]
@@ -443,7 +446,7 @@ open Flatland.Markup Flatland.C12 Flatland.C19.Proofs
 /-- `tagname == "input" and attributes.get("type") in ("checkbox", "radio")` -/
 def checkable (attrs : Attrs) : Bool :=
   match Dict.get? attrs sType with
-  | some t => t.eqStr "checkbox".toList || t.eqStr "radio".toList
+  | some t => t.lowerKw.eqStr "checkbox".toList || t.lowerKw.eqStr "radio".toList
   | none => false
 
 /-- the raw id both sides compute: flattened name, plus `_` + the sanitised literal when that
@@ -716,7 +719,7 @@ theorem fresh_enabled :
     from which the browser rule posts exactly `(flattened name, u)` — for every bind with a
     non-empty flat name and every attribute order setting -/
 theorem fresh_input_posts (b : Bind) (ty text : Str)
-    (hty : textLike (.text ty) = true)
+    (hty : textLike (.text (kwLower ty)) = true)
     (hbr : asciiLower ty ≠ "checkbox".toList ∧ asciiLower ty ≠ "radio".toList)
     (hname : b.flatName ≠ []) (r : TagResult)
     (h : prepareTag Tables.current Flatland.Generated.C11.staticAttributeOrder freshGen sInput (some b)
@@ -769,8 +772,8 @@ theorem C12_full_fails : ¬ C12_Full := by
   decide
 
 /-- the partial theorem covers the three other types of the quantifier -/
-example : textLike (.text "text".toList) = true ∧ textLike (.text "hidden".toList) = true ∧
-    textLike (.text "submit".toList) = true ∧ textLike (.text "password".toList) = false := by decide
+example : textLike (.text (kwLower "text".toList)) = true ∧ textLike (.text (kwLower "Hidden".toList)) = true ∧
+    textLike (.text (kwLower "submit".toList)) = true ∧ textLike (.text (kwLower "Password".toList)) = false := by decide
 
 /-- non-vacuity of `checked_iff` / `label_targets` hypotheses on concrete dictionaries -/
 example : checkable [(sType, .text "checkbox".toList), (sValue, .text "q r".toList)] = true := by decide
@@ -837,7 +840,8 @@ theorem selected_iff (T : Tables) (b : Bind) (st st6 : TState) (lit selectName t
     value, and the browser posts `(flattened name, Boolean.true)` exactly then -/
 theorem checked_iff_boolean (T : Tables) (b : Bind) (st st6 : TState) (ty : Val) (tru text : Str) (hp : Plain T st)
     (hnd : (Dict.keys st.attrs).Nodup)
-    (hty : Dict.get? st.attrs sType = some ty) (hck : ty.eqStr "checkbox".toList = true)
+    (hty : Dict.get? st.attrs sType = some ty) (hck : ty.lowerKw.eqStr "checkbox".toList = true)
+    (hnk : ∀ s, ty.str? = some s → asciiLower s = kwLower s)
     (hno : Dict.get? st.attrs sValue = none) (hkind : b.kind = .boolean tru)
     (hname : b.flatName ≠ [])
     (hT1 : T.autoTag sName sInput = true) (hT2 : T.autoTag sValue sInput = true)
@@ -897,23 +901,18 @@ theorem checked_iff_boolean (T : Tables) (b : Bind) (st st6 : TState) (ty : Val)
   refine ⟨e2, e3, ?_⟩
   have hn6 := transform_nodup hnd h
   have hne : b.flatName.isEmpty = false := by simpa using hname
-  have hs : ty.str? = some "checkbox".toList := by
-    unfold Val.eqStr at hck
-    cases hs : ty.str? with
-    | none => rw [hs] at hck; simp at hck
-    | some s => rw [hs] at hck; simp only [beq_iff_eq] at hck; rw [hck]
-  have hlow : asciiLower "checkbox".toList = "checkbox".toList := by decide
-  have hdec : (decide ("checkbox".toList = "checkbox".toList) || decide ("checkbox".toList = "radio".toList)) = true := by
-    decide
+  have hck2 : (ty.lowerKw.eqStr "radio".toList || ty.lowerKw.eqStr "checkbox".toList) = true := by
+    rw [hck]; exact Bool.or_true _
+  obtain ⟨s, hs, hs2⟩ := checkable_str ty hck2 hnk
+  have hdec : (decide (asciiLower s = "checkbox".toList) || decide (asciiLower s = "radio".toList)) = true := by
+    rcases hs2 with h | h <;> simp [h]
   unfold Spec.PostsIffMatches submittedD submitted
   simp only [attr?_strAttrs _ hn6, e1, e2, e3, e4, Option.bind_some, str?_text, hne, Bool.false_eq_true, if_false,
-    hs, Option.getD_some, hlow, hdec, if_true]
+    hs, Option.getD_some, hdec, if_true]
   by_cases hlu : tru = b.u
   · subst hlu
-    simp only [if_true, Option.bind_some, str?_text, Option.isSome_some, beq_self_eq_true, decide_true, Bool.true_or,
-      ite_self]
+    simp only [if_true, Option.bind_some, str?_text, Option.isSome_some, beq_self_eq_true]
   · have : (tru == b.u) = false := by simpa using hlu
-    simp only [hlu, if_false, Option.bind_none, Option.isSome_none, Bool.false_eq_true, this, decide_true, Bool.true_or,
-      if_true]
+    simp only [hlu, if_false, Option.bind_none, Option.isSome_none, Bool.false_eq_true, this]
 
 end Flatland.C12.Proofs
